@@ -1202,7 +1202,7 @@ def run(ctx):
     model = ctx.model('bufs')
     res.rule = ('one evaluation = one history (sequence of open/switch/edit/undo/write/delete-buffer/quit commands over 2..16 files) run through '
                 'the real `vi -s -e`, observed after EVERY command line (single commands and `c1|c2|..` lines that switch buffers in mid-line; =, %p, current line, :b listing) and compared with the reference map '
-                'id -> (path, text, line, dirty, undo stack) + MRU list, plus the files on disk at the end; or one vi-mode key program for the shortcuts. '
+                'id -> (path, text, line, dirty, undo stack) + MRU list, plus the files on disk at the end (styles unnamed / spell: sessions without a file argument whose buffer is named by `:w ./n`, path spellings ./n .//n sub/../n in :e :ew :w and the argument list); or one vi-mode key program for the shortcuts. '
                 'non-trivial = the history switches buffers at least 3 times and edits at least 2 different buffers; distinct = distinct command list')
     hists = []      # (tag, files, args, cmds)
     if ctx.replay:
